@@ -145,7 +145,7 @@ def _p(pid, title, rules, decided, undecided, anchors=(), floor=1, extra_assumpt
 
 
 _p('C01', 'Attack-graph edges are exactly the MAL meaning of the step expressions',
-   ['R1', 'R2', 'R12', 'R8', 'R14', 'R19', 'R22', 'R18', 'R20', 'R6', 'R17', 'R10', 'R15', 'R4', 'R25'],
+   ['R1', 'R2', 'R12', 'R8', 'R14', 'R19', 'R22', 'R18', 'R20', 'R6', 'R17', 'R10', 'R15', 'R4', 'R13', 'R25'],
    decided=['R1: the evaluator never removes from a list it iterates (set operators, sub-type '
             'filter, recursion through callee summaries)',
             'R2: every child link created by generation is mirrored by the converse parent link on '
@@ -180,7 +180,7 @@ _p('C02', 'One node per asset x step, with attributes faithful to model and lang
    anchors=[('R3', 'AttackGraph.add_node'), ('R4', 'AttackGraph.add_node'), ('R4', 'Model.add_asset')])
 
 _p('C03', 'Step inheritance resolves override/extend correctly and the lookup is pure',
-   ['R6', 'R3', 'R22', 'R17', 'R20', 'R10', 'R25'],
+   ['R6', 'R3', 'R22', 'R17', 'R20', 'R10', 'R13', 'R25'],
    decided=['R6: no in-place mutation anywhere in the package has a receiver that may be owned by the '
             'loaded specification (whole-package points-to; deepcopy results tracked per key), so '
             'lookups, language-graph and attack-graph generation leave the specification unmodified '
@@ -229,7 +229,7 @@ _p('C05', 'The instance model stays coherent under any history of edits',
             ('R5', 'Model.remove_asset_from_association')])
 
 _p('C06', 'A model can only hold what the language allows',
-   ['R17', 'R8', 'R18', 'R20', 'R6', 'R10', 'R22', 'R3', 'R25'],
+   ['R17', 'R8', 'R18', 'R20', 'R6', 'R10', 'R22', 'R3', 'R13', 'R25'],
    decided=['R17 T11a: per asset the schema entry has id/type, allOf to every direct super asset, and for every '
             'defense step a number property with minimum 0, maximum 1 and default 1.0 iff its TTC is Enabled else 0.0',
             'R17 T11b: per association an array field per end typed by $ref to the declared asset of that end, '
